@@ -153,9 +153,48 @@ func foldV(rv reflect.Value, depth int) (model.V, error) {
 		if err := foldFields(rv, &out, depth); err != nil {
 			return model.V{}, err
 		}
+		if names, ok := allFieldNames(t, 0); ok {
+			out.FieldNames = names
+		}
 		return out, nil
 	}
 	return model.V{}, refused("unsupported kind %v", t.Kind())
+}
+
+// allFieldNames lists every member name a struct type knows (ok=false when it
+// inlines something with an open set of names).
+func allFieldNames(t reflect.Type, depth int) ([]string, bool) {
+	if depth > 8 {
+		return nil, false
+	}
+	names := []string{}
+	for i := 0; i < t.NumField(); i++ {
+		f := t.Field(i)
+		if !exported(f.Name) {
+			continue
+		}
+		o := ParseTag(f.Tag.Get("struct"))
+		if o.Inline {
+			ft := f.Type
+			for ft.Kind() == reflect.Ptr {
+				ft = ft.Elem()
+			}
+			if ft.Kind() != reflect.Struct {
+				return nil, false
+			}
+			if _, custom := poolFolders[ft]; custom {
+				return nil, false
+			}
+			sub, ok := allFieldNames(ft, depth+1)
+			if !ok {
+				return nil, false
+			}
+			names = append(names, sub...)
+			continue
+		}
+		names = append(names, FieldName(f, o), strings.ToLower(f.Name), o.Name)
+	}
+	return names, true
 }
 
 func float32Bits(rv reflect.Value) uint32 {
